@@ -164,6 +164,7 @@ def _tracked_cls():
     return _TRACKED[0]
 
 
+@U.bounded((list(U.HANG), 127))
 def impl_results_tracked(data: Any, bits: int, ncalls: int) -> tuple[list[int], int]:
     """U.impl_results on the tracked subclass: (encoded trace, bit mask of the options read, construction included)."""
     from srctools.tokenizer import TokenSyntaxError
@@ -506,6 +507,7 @@ def _split_ints(v: str) -> list[str]:
     return [x.strip() for x in v.split(';') if x.strip()]
 
 
+@U.bounded(list(U.HANG))
 def _impl_chk_trace(bits: int, whole: bool, cs: list[str]) -> list[int]:
     from srctools.tokenizer import Tokenizer, TokenSyntaxError
     s = ''.join(cs)
@@ -548,6 +550,7 @@ def kv_kw(bits: int) -> dict:
     return dict(newline_keys=bool(bits & 1), newline_values=bool(bits & 2), single_line=bool(bits & 4), single_block=bool(bits & 8))
 
 
+@U.bounded((398, 'hang: no result within the time limit'))
 def kv_code(arg: Any, bits: int, ae: bool, flags: dict) -> tuple[int, str]:
     """Outcome class of Keyvalues.parse as KvErrGen.outcome_code encodes it (+ a description)."""
     from srctools.keyvalues import KeyValError, Keyvalues
@@ -902,6 +905,7 @@ def _got_token(mess: str) -> int:
     return 99
 
 
+@U.bounded(list(U.HANG))
 def bt_run(kind: str, ops: tuple[int, ...]) -> list[int]:
     """Run a sequence of public BaseTokenizer operations on the real class; encode as BaseTokEnum.xrun does."""
     from srctools.tokenizer import Token, TokenSyntaxError
@@ -1263,6 +1267,7 @@ class _Counting:
         return cls.cls(data, None, **U.opts_of_bits(bits))
 
 
+@U.bounded('hang: no result within the time limit')
 def reads_oracle(s: str, bits: int, cs: list[str] | None) -> str | None:
     from srctools.tokenizer import Token, TokenSyntaxError
     tk = _Counting.make(s if cs is None else iter(cs), bits)
@@ -1281,6 +1286,7 @@ def reads_oracle(s: str, bits: int, cs: list[str] | None) -> str | None:
     return None
 
 
+@U.bounded(('FOREIGN', 'hang', 'no result within the time limit'))
 def kv_oracle(s: str, cs: list[str] | None, **kw) -> tuple:
     """Outcome of Keyvalues.parse: ('ok', tree) / ('KeyValError', message, line) / ('FOREIGN', type)."""
     from srctools.keyvalues import KeyValError, Keyvalues
@@ -1378,6 +1384,7 @@ def _plain_stream(s: str, bits: int) -> list:
     return out
 
 
+@U.bounded('hang: no result within the time limit')
 def basetok_delivery(s: str, bits: int, plan: list[str], chunks: list[str] | None = None) -> str | None:
     """Delivery = underlying stream on the real class: following `plan` (call / peek+call / peek twice / push two and pop
     them), the tokens returned by calls must be the plain stream; returns a description of the first deviation."""
@@ -1529,6 +1536,10 @@ def _stage(ck: Ck, name: str) -> None:
 
 
 def run(ck: Ck) -> None:
+    U.guarded('C03', _run, ck)
+
+
+def _run(ck: Ck) -> None:
     _REPORTED.clear()
     ck.rule = ('exhaustive: every string over the 23-symbol syntax alphabet (" \\ / * { } [ ] ( ) # : + = , CR LF space a n BOM \' ;) up to '
                'length 3 (4 thorough for the correspondence) x all 128 option vectors; oracle additionally x every way of cutting the '
